@@ -5,6 +5,7 @@ import (
 	"maps"
 	"os"
 	"path/filepath"
+	"slices"
 	"strings"
 
 	"github.com/joho/godotenv"
@@ -344,9 +345,11 @@ func itemsFromFor(
 				case []any:
 					values = value
 				case map[string]any:
-					for k, v := range value {
+					// Loop over the map in a fixed order so that the commands
+					// generated from it are the same every time
+					for _, k := range slices.Sorted(maps.Keys(value)) {
 						keys = append(keys, k)
-						values = append(values, v)
+						values = append(values, value[k])
 					}
 				default:
 					return nil, nil, errors.TaskfileInvalidError{
